@@ -857,6 +857,9 @@ class Effects:
                     if x.arg == t[1][1] and x.annotation is not None:
                         ann = ast.unparse(x.annotation)
                 is_module = ann is not None and ('Module' in ann) and 'Callable' not in ann
+                if t[1][1] == 'self' and fn.cls is not None and fn.kind != 'static' and \
+                        self.repo.find_method(fn.cls, 'forward') is not None:
+                    is_module = True        # self(x): the module's own forward pass
             if is_module and r_owner != FRESH:
                 add(Effect('forward', r_owner, '__call__', show(t)[:80], fn, ln))
             if t[1][0] == 'param' and not is_module:
